@@ -85,7 +85,7 @@ def baseline():
     """outputs in a FRESH plain interpreter (no CrossHair, no history)"""
     if 'b' not in _BASELINE:
         code = 'import json; import vfy.lemmas.c11 as c; print("BASE " + json.dumps(c.render_all()))'
-        env = dict(os.environ, PYTHONPATH='/verif:/repo', PYTHONHASHSEED='0')
+        env = dict(os.environ, PYTHONPATH='/verif:' + L.REPO, PYTHONHASHSEED='0')
         out = subprocess.run(['/venv/bin/python', '-c', code], capture_output=True, text=True, env=env, timeout=300).stdout
         _BASELINE['b'] = json.loads(out.split('BASE ', 1)[1])
     return _BASELINE['b']
